@@ -195,6 +195,24 @@ int main() {
             for (auto& t : cs) t.join();
             std::cout << " | released=" << rel << " consumers=" << consumers << "\n";
         }
+        else if (cmd == "R") {
+            // one-shot reply queues: a handler thread pushes a single reply into a queue the requester owns; the requester pops
+            // it and destroys the queue at once.  push() must be done with the queue before the popped item can be seen.
+            int rounds; unsigned seed;
+            is >> rounds >> seed;
+            std::mt19937 r(seed);
+            int ok = 0;
+            for (int k = 0; k < rounds; ++k) {
+                auto* q = new threadsafe_queue<int>();
+                std::thread replier([q, k] { q->push(k); });
+                auto p = q->wait_and_pop();
+                if (p && *p == k) ++ok;
+                delete q;                       // the requester is done with its queue
+                replier.join();
+                if (k % 16 == 0) jitter(r);
+            }
+            std::cout << " | ok=" << ok << " rounds=" << rounds << "\n";
+        }
         std::cout.flush();
     }
     return 0;
